@@ -715,7 +715,9 @@ func (c *compiler) compile(tok *token) []instruction {
 		c.Begin()
 		res = append(res, c.compile(tok.Tokens[forInit])...)
 		cond := c.optimize(c.compile(tok.Tokens[forCond]))
+		c.Begin() // the body is a block of its own: it may declare the loop variable's name again
 		block := c.optimize(c.compile(tok.Tokens[forBlock]))
+		c.End()
 		post := c.optimize(c.compile(tok.Tokens[forPost]))
 		if len(cond) > 0 {
 			res = append(res, instruction{Code: codeJump, A: reg((len(block) + len(post)))})
@@ -787,7 +789,9 @@ func (c *compiler) compile(tok *token) []instruction {
 		// the iteration variables are new variables of the loop's scope: they shadow outer ones
 		k := c.Shadow(tok.Tokens[rangeKey].Text)
 		v := c.Shadow(tok.Tokens[rangeValue].Text)
+		c.Begin() // the body is a block of its own
 		block := c.optimize(c.compile(tok.Tokens[rangeBlock]))
+		c.End()
 		for n, ins := range block {
 			switch ins.Code {
 			case codeBreak:
